@@ -1,8 +1,185 @@
-(* C13 — Discovery data round-trips through its parameter-list encoding. *)
-From DustDDS Require Import Base.Machine Disc.PlModel Disc.DiscModel Disc.PlProofs.
+(* C13 — Discovery data round-trips through its parameter-list encoding.
+   Property file: statements, `exact`, non-vacuity examples, assumptions.
+
+   Vocabulary (all in Disc/PlModel.v and Disc/DiscModel.v, definitions only):
+     tbl_into_bytes wt r / tbl_from_bytes rt build d   table-driven into_bytes / from_bytes
+     table_ok wt r      distinct valid pids, position-independent value writers, and
+                        tbl_fits wt r: every emitted value is <= 65535 bytes once padded to 4
+     rows_read_back     every read row gives its field back from the values emitted under its pid
+     params_bytes ps    wire bytes of the parameters ps = [(pid, value); ...] (little endian)
+     item_ok (pid, v)   pid is an i16 other than PID_SENTINEL, blen v <= 65535
+     wf_topic / wf_dwriter / wf_dreader / wf_participant   what the Rust types guarantee, plus
+                        consistency of the fields that are NOT transmitted
+     TI, ti_w, ti_dec   TypeInformation and its XCDR2 codec: abstract (property C09) *)
+From DustDDS Require Import Base.Machine Disc.PlModel Disc.DiscModel Disc.PlProofs Disc.DiscProofs Disc.DiscTotProofs.
 Open Scope Z_scope.
 
-Theorem C13_placeholder : forall l, 0 <= blen l.
-Proof. exact blen_nonneg. Qed.
+(* ------------------------------------------------------------------ the wire format *)
+(* write_cdr_parameter appends pid, `length as u16`, the value and zero padding to a multiple of 4 *)
+Theorem C13_write_parameter_shape : forall buf pid (w : wr),
+  blen buf mod 4 = 0 ->
+  write_cdr_parameter buf pid w
+  = buf ++ le_bytes 2 (wrap_u16 pid) ++ le_bytes 2 (wrap_u16 (blen (padv (w (blen buf + 4))))) ++ padv (w (blen buf + 4)).
+Proof. exact write_cdr_parameter_eq. Qed.
 
-Print Assumptions C13_placeholder.
+(* PidIterator::next yields exactly that parameter back when its length fits 16 bits *)
+Theorem C13_iterator_reads_parameter : forall pid v rest,
+  pid_ok pid -> blen v <= 65535 -> pl_next false (param_bytes pid v ++ rest) = PItem pid v rest.
+Proof. exact pl_next_param. Qed.
+
+(* ------------------------------------------------------------------ generic theorems *)
+Theorem C13_pl_roundtrip :
+  forall (R : Type) (wt : list (wrow R)) (rt : list rrow) (build : tuple_of rt -> R) (r : R) (t : tuple_of rt),
+    table_ok wt r -> rows_read_back wt r rt t ->
+    tbl_from_bytes rt build (tbl_into_bytes wt r) = Ok (build t).
+Proof. exact @pl_roundtrip. Qed.
+
+Theorem C13_unknown_pids_ignored :
+  forall (R : Type) (rt : list rrow) (build : tuple_of rt -> R) (ps : list (Z * bytes)) (u : Z * bytes) (tail : bytes),
+    ps <> [] -> Forall item_ok ps -> item_ok u -> ~ In (fst u) (map r_pid rt) ->
+    hdr_endianness (pl_hdr (params_bytes ps ++ tail)) = Ok false ->
+    tbl_from_bytes rt build (params_bytes (ps ++ [u]) ++ tail) = tbl_from_bytes rt build (params_bytes ps ++ tail).
+Proof. exact @unknown_pids_ignored_tbl. Qed.
+
+Theorem C13_decode_total_generic :
+  forall (R : Type) (rt : list rrow) (build : tuple_of rt -> R),
+    Forall (fun row => reader_total (r_reader row)) rt -> forall d p, tbl_from_bytes rt build d <> Panic p.
+Proof. exact @tbl_from_bytes_total. Qed.
+
+(* ------------------------------------------------------------------ the four discovery data kinds *)
+Theorem C13_topic_roundtrip :
+  forall (TI : Type) (ti_w : TI -> wr) (ti_dec : xdec TI),
+    (forall t tail, ti_dec false (ti_w t 0 ++ tail) = Ok (Some t)) ->
+    (forall t pos k, ti_w t (pos + 4 * k) = ti_w t pos) ->
+    forall r : topic TI,
+      wf_topic TI r -> tbl_fits (topic_wtable TI ti_w) r -> res_limited_max (t_resource_limits TI r) = false ->
+      topic_from_bytes TI ti_dec (topic_into_bytes TI ti_w r) = Ok r.
+Proof. exact topic_roundtrip. Qed.
+
+Theorem C13_publication_roundtrip :
+  forall (TI : Type) (ti_w : TI -> wr) (ti_dec : xdec TI),
+    (forall t tail, ti_dec false (ti_w t 0 ++ tail) = Ok (Some t)) ->
+    (forall t pos k, ti_w t (pos + 4 * k) = ti_w t pos) ->
+    forall r : dwriter TI,
+      wf_dwriter TI r -> tbl_fits (dwriter_wtable TI ti_w) r ->
+      dwriter_from_bytes TI ti_dec (dwriter_into_bytes TI ti_w r) = Ok r.
+Proof. exact dwriter_roundtrip. Qed.
+
+Theorem C13_subscription_roundtrip :
+  forall (TI : Type) (ti_w : TI -> wr) (ti_dec : xdec TI),
+    (forall t tail, ti_dec false (ti_w t 0 ++ tail) = Ok (Some t)) ->
+    (forall t pos k, ti_w t (pos + 4 * k) = ti_w t pos) ->
+    forall r : dreader TI,
+      wf_dreader TI r -> tbl_fits (dreader_wtable TI ti_w) r ->
+      dreader_from_bytes TI ti_dec (dreader_into_bytes TI ti_w r) = Ok r.
+Proof. exact dreader_roundtrip. Qed.
+
+Theorem C13_participant_roundtrip :
+  forall r : participant,
+    wf_participant r -> tbl_fits participant_wtable r ->
+    participant_from_bytes (participant_into_bytes r) = Ok r.
+Proof. exact participant_roundtrip. Qed.
+
+(* unknown / vendor-specific parameters, inserted after any prefix ps of a received little-endian
+   list (hence anywhere before the sentinel), whatever follows (tail) *)
+Theorem C13_topic_unknown_pids_ignored :
+  forall (TI : Type) (ti_dec : xdec TI) ps u tail,
+    ps <> [] -> Forall item_ok ps -> item_ok u -> ~ In (fst u) (map r_pid (topic_rtable TI ti_dec)) ->
+    hdr_endianness (pl_hdr (params_bytes ps ++ tail)) = Ok false ->
+    topic_from_bytes TI ti_dec (params_bytes (ps ++ [u]) ++ tail) = topic_from_bytes TI ti_dec (params_bytes ps ++ tail).
+Proof. exact topic_unknown_pids_ignored. Qed.
+Theorem C13_publication_unknown_pids_ignored :
+  forall (TI : Type) (ti_dec : xdec TI) ps u tail,
+    ps <> [] -> Forall item_ok ps -> item_ok u -> ~ In (fst u) (map r_pid (dwriter_rtable TI ti_dec)) ->
+    hdr_endianness (pl_hdr (params_bytes ps ++ tail)) = Ok false ->
+    dwriter_from_bytes TI ti_dec (params_bytes (ps ++ [u]) ++ tail) = dwriter_from_bytes TI ti_dec (params_bytes ps ++ tail).
+Proof. exact dwriter_unknown_pids_ignored. Qed.
+Theorem C13_subscription_unknown_pids_ignored :
+  forall (TI : Type) (ti_dec : xdec TI) ps u tail,
+    ps <> [] -> Forall item_ok ps -> item_ok u -> ~ In (fst u) (map r_pid (dreader_rtable TI ti_dec)) ->
+    hdr_endianness (pl_hdr (params_bytes ps ++ tail)) = Ok false ->
+    dreader_from_bytes TI ti_dec (params_bytes (ps ++ [u]) ++ tail) = dreader_from_bytes TI ti_dec (params_bytes ps ++ tail).
+Proof. exact dreader_unknown_pids_ignored. Qed.
+Theorem C13_participant_unknown_pids_ignored :
+  forall ps u tail,
+    ps <> [] -> Forall item_ok ps -> item_ok u -> ~ In (fst u) (map r_pid participant_rtable) ->
+    hdr_endianness (pl_hdr (params_bytes ps ++ tail)) = Ok false ->
+    participant_from_bytes (params_bytes (ps ++ [u]) ++ tail) = participant_from_bytes (params_bytes ps ++ tail).
+Proof. exact participant_unknown_pids_ignored. Qed.
+(* every vendor-specific pid (0x8000..0xffff, negative as i16) is unknown to all four decoders *)
+Theorem C13_vendor_pids_are_unknown :
+  forall (TI : Type) (ti_dec : xdec TI) pid, pid < 0 ->
+    ~ In pid (map r_pid (topic_rtable TI ti_dec)) /\ ~ In pid (map r_pid (dwriter_rtable TI ti_dec))
+    /\ ~ In pid (map r_pid (dreader_rtable TI ti_dec)) /\ ~ In pid (map r_pid participant_rtable).
+Proof. exact vendor_pid_unknown. Qed.
+
+(* ------------------------------------------------------------------ decoders never panic (for C07) *)
+Theorem C13_decode_total_topic :
+  forall (TI : Type) (ti_dec : xdec TI), (forall be v p, ti_dec be v <> Panic p) ->
+    forall d p, topic_from_bytes TI ti_dec d <> Panic p.
+Proof. exact topic_from_bytes_total. Qed.
+Theorem C13_decode_total_publication :
+  forall (TI : Type) (ti_dec : xdec TI), (forall be v p, ti_dec be v <> Panic p) ->
+    forall d p, dwriter_from_bytes TI ti_dec d <> Panic p.
+Proof. exact dwriter_from_bytes_total. Qed.
+Theorem C13_decode_total_subscription :
+  forall (TI : Type) (ti_dec : xdec TI), (forall be v p, ti_dec be v <> Panic p) ->
+    forall d p, dreader_from_bytes TI ti_dec d <> Panic p.
+Proof. exact dreader_from_bytes_total. Qed.
+(* the participant decoder is total outside one family: a PID_DOMAIN_TAG value whose string
+   length field is 0 (String::cdr_deserialize: `length as usize - 1`) *)
+Theorem C13_decode_total_participant_unless_zero_length_tag :
+  forall d, domain_tag_len0 d = false -> forall p, participant_from_bytes d <> Panic p.
+Proof. exact participant_from_bytes_total. Qed.
+Theorem C13_decode_total_participant_refuted :
+  exists d, domain_tag_len0 d = true /\ participant_from_bytes d = Panic PANIC_STRING_LEN0.
+Proof. exact (ex_intro _ witness_d14 participant_panic_witness). Qed.
+
+(* ------------------------------------------------------------------ the unconditional round trip is false *)
+(* 70000 bytes of user data: the announcement decodes to a participant without user data *)
+Theorem C13_u16_length_refutes_roundtrip :
+  exists r, wf_participant r /\ tbl_fitsb participant_wtable r = false
+            /\ exists r', participant_from_bytes (participant_into_bytes r) = Ok r' /\ p_user_data r' = [] /\ r' <> r.
+Proof. exact participant_u16_truncation_witness. Qed.
+(* Length::Limited(i32::MAX) is announced as LENGTH_UNLIMITED *)
+Theorem C13_limited_max_refutes_roundtrip :
+  exists r : topic unit,
+    wf_topic unit r /\ tbl_fits (topic_wtable unit (fun _ => w_raw [])) r
+    /\ res_limited_max (t_resource_limits unit r) = true
+    /\ exists r', topic_from_bytes unit (fun _ _ => Err X_NED) (topic_into_bytes unit (fun _ => w_raw []) r) = Ok r'
+                  /\ rs_ms (t_resource_limits unit r') = Unlimited /\ r' <> r.
+Proof. exact (ex_intro _ witness_topic topic_limited_max_witness). Qed.
+
+(* ------------------------------------------------------------------ non-vacuity *)
+(* the hypotheses are met right at the 16-bit boundary: 65528 bytes of user data fit, 65529 do not *)
+Example C13_nonvacuous_boundary :
+  wf_participant (witness_participant (rep 0 65528)) /\ tbl_fits participant_wtable (witness_participant (rep 0 65528))
+  /\ tbl_fitsb participant_wtable (witness_participant (rep 0 65529)) = false.
+Proof. exact participant_boundary_fits. Qed.
+(* and by a publication with non-default QoS, partitions (one empty, one non-ASCII), user data,
+   a group entity id and a locator *)
+Example C13_nonvacuous_publication :
+  wf_dwriter unit example_dwriter /\ tbl_fits (dwriter_wtable unit (fun _ => w_raw [])) example_dwriter.
+Proof. exact example_dwriter_meets_hypotheses. Qed.
+
+Print Assumptions C13_write_parameter_shape.
+Print Assumptions C13_iterator_reads_parameter.
+Print Assumptions C13_pl_roundtrip.
+Print Assumptions C13_unknown_pids_ignored.
+Print Assumptions C13_decode_total_generic.
+Print Assumptions C13_topic_roundtrip.
+Print Assumptions C13_publication_roundtrip.
+Print Assumptions C13_subscription_roundtrip.
+Print Assumptions C13_participant_roundtrip.
+Print Assumptions C13_topic_unknown_pids_ignored.
+Print Assumptions C13_publication_unknown_pids_ignored.
+Print Assumptions C13_subscription_unknown_pids_ignored.
+Print Assumptions C13_participant_unknown_pids_ignored.
+Print Assumptions C13_vendor_pids_are_unknown.
+Print Assumptions C13_decode_total_topic.
+Print Assumptions C13_decode_total_publication.
+Print Assumptions C13_decode_total_subscription.
+Print Assumptions C13_decode_total_participant_unless_zero_length_tag.
+Print Assumptions C13_decode_total_participant_refuted.
+Print Assumptions C13_u16_length_refutes_roundtrip.
+Print Assumptions C13_limited_max_refutes_roundtrip.
